@@ -2,6 +2,7 @@ package smtp
 
 import (
 	"io"
+	"time"
 )
 
 const (
@@ -56,15 +57,55 @@ func refPathClass(s string, isMail bool) (int, string) {
 	}
 	body := s[1:]
 	if len(body) > 0 && body[0] == '@' {
-		// source route or empty local part
-		hasColon := false
+		// source route (RFC 5321 A-d-l) or empty local part
+		colon := -1
 		for i := 0; i < len(body); i++ {
 			if body[i] == ':' {
-				hasColon = true
+				colon = i
+				break
 			}
 		}
-		if !hasColon {
+		if colon < 0 {
 			return vInvalid, ""
+		}
+		// narrow validity of the route: "@" LDH *("," "@" LDH)
+		route := body[:colon]
+		okRoute := true
+		i := 0
+		for i < len(route) {
+			if route[i] != '@' {
+				okRoute = false
+				break
+			}
+			i++
+			st := i
+			for i < len(route) && route[i] != ',' {
+				if !verifIsAlnum(route[i]) && route[i] != '-' && route[i] != '.' {
+					okRoute = false
+				}
+				i++
+			}
+			if i == st {
+				okRoute = false
+			}
+			if i < len(route) {
+				i++ // the comma
+				if i == len(route) {
+					okRoute = false
+				}
+			}
+		}
+		if !okRoute {
+			return vUnspec, ""
+		}
+		// the rest must be a plain valid mailbox for the line to be judged
+		// (the grammar has ONE optional route: a second '@...:' is not a route)
+		if colon+1 < len(body) && body[colon+1] == '@' {
+			return vUnspec, ""
+		}
+		c, mb := refPathClass("<"+body[colon+1:], false)
+		if c == vValid {
+			return vValid, mb
 		}
 		return vUnspec, ""
 	}
@@ -578,12 +619,28 @@ func verif_C11_rcptparams() {
 	be := &vbackend{}
 	srv, lg := verifServer(be)
 	srv.EnableDSN = nondetBool()
-	key := verifChoice(2)
+	srv.EnableRRVS = nondetBool()
+	key := verifChoice(3)
 	var param string
 	class := vUnspec
 	var wantNotify []DSNNotify
 	wantType, wantAddr := DSNAddressType(""), ""
+	var wantSince time.Time
 	switch key {
+	case 2: // RRVS: a concrete corpus (time parsing is not encoded symbolically)
+		corpus := []string{"2014-04-03T23:01:00Z", "1999-12-31T23:59:59Z;C", "2024-02-29T00:00:00Z;R", "2014-04-03 23:01:00Z", "2014-13-03T23:01:00Z", "yesterday", ""}
+		okv := []bool{true, true, true, false, false, false, false}
+		k := verifChoice(len(corpus))
+		param = "RRVS=" + corpus[k]
+		switch {
+		case !srv.EnableRRVS:
+			class = vInvalid
+		case okv[k]:
+			class = vValid
+			wantSince = []time.Time{time.Date(2014, 4, 3, 23, 1, 0, 0, time.UTC), time.Date(1999, 12, 31, 23, 59, 59, 0, time.UTC), time.Date(2024, 2, 29, 0, 0, 0, 0, time.UTC)}[k]
+		default:
+			class = vInvalid
+		}
 	case 0: // NOTIFY: 1..3 tokens, each one of five (four keywords + junk), arbitrary case of first letter
 		toks := []string{"NEVER", "SUCCESS", "FAILURE", "DELAY", "SOMETIMES"}
 		n := nondetInt(1, 3)
@@ -668,7 +725,8 @@ func verif_C11_rcptparams() {
 	if ri < 0 || got == nil {
 		return
 	}
-	verifAssert(got.OriginalRecipientType == wantType && got.OriginalRecipient == wantAddr && got.RequireRecipientValidSince.IsZero(), "C11.rcpt-options-exact-others-zero")
+	verifAssert(got.OriginalRecipientType == wantType && got.OriginalRecipient == wantAddr, "C11.rcpt-options-exact-others-zero")
+	verifAssert(got.RequireRecipientValidSince.Equal(wantSince), "C11.rcpt-rrvs-exact")
 	verifAssert(len(got.Notify) == len(wantNotify), "C11.rcpt-notify-length")
 	if len(got.Notify) == len(wantNotify) {
 		for i := range wantNotify {
@@ -765,4 +823,66 @@ func verif_C11_mail_multi() {
 		}
 	}
 	verifReach("C11.multi-end")
+}
+
+// verif_C11_route: paths with a source route (RFC 5321 A-d-l, which go-smtp
+// strips), one octet mutated, followed by nothing or by a parameter that
+// itself contains a ':' - the route must end at ITS colon.
+func verif_C11_route() {
+	isMail := nondetBool()
+	t := []string{"<@x:a@b>", "<@x,@y:a@b>"}[verifChoice(2)]
+	s := verifMutate(t)
+	class, mbox := refPathClass(s, isMail)
+	assume(class != vUnspec)
+	param := ""
+	withParam := nondetBool()
+	be := &vbackend{}
+	srv, _ := verifServer(be)
+	srv.EnableDSN = true
+	if withParam {
+		if isMail {
+			param = " ENVID=i:d"
+		} else {
+			param = " ORCPT=rfc822;u:v@w"
+		}
+	}
+	in := "EHLO c\r\n"
+	k := 2
+	if isMail {
+		in += "MAIL FROM:" + s + param + "\r\n"
+	} else {
+		in += "MAIL FROM:<pre@v>\r\nRCPT TO:" + s + param + "\r\n"
+		k = 3
+	}
+	vc, _, _ := verifServe(srv, []byte(in), io.EOF)
+	code := verifNthReplyCode(vc.out, k)
+	kind := "Rcpt"
+	if isMail {
+		kind = "Mail"
+	}
+	n := 0
+	var ev vevent
+	for _, e := range be.trace {
+		if e.kind == kind && e.arg != "pre@v" {
+			n++
+			ev = e
+		}
+	}
+	verifObserve("c11route", s, isMail, withParam, class, code, n)
+	if class == vValid {
+		verifReach("C11.route-valid")
+		verifAssert(code == 250 && n == 1 && ev.arg == mbox, "C11.route-valid-accepted-exact")
+		if withParam && n == 1 {
+			if isMail {
+				o := verifLastMailOpts(be)
+				verifAssert(o != nil && o.EnvelopeID == "i:d", "C11.route-parameter-intact")
+			} else {
+				o := verifLastRcptOpts(be)
+				verifAssert(o != nil && o.OriginalRecipient == "u:v@w", "C11.route-parameter-intact")
+			}
+		}
+	} else {
+		verifReach("C11.route-invalid")
+		verifAssert(code/100 == 5 && n == 0, "C11.route-invalid-refused")
+	}
 }
